@@ -121,6 +121,9 @@ MALFORMED = "malformed macro call"
 
 def gen1(a):
     yield from (f"!{a}", f"-{a}", f"{a}.f", f"has({a}.f)", f"({a})", f"[{a}]", f"{{{a}: 1}}", f"{{1: {a}}}", f"{a} ? 1 : 2", f"true ? {a} : 1", f"T{{f: {a}}}")
+    # every atom as the operand that does NOT decide: the other operand absorbs whatever this one does
+    yield from (f"true || {a}", f"{a} || true", f"false && {a}", f"{a} && false", f"true ? 1 : {a}", f"false ? {a} : 1", f"false || {a}", f"{a} && true",
+                f"true || ({a})", f"[1].exists(e, e == 1 || {a})")
     for m in METHODS0:
         yield f"{a}.{m}()"
     for f in FUNCS1:
